@@ -4,7 +4,7 @@
 (*                                                                         *)
 (* Schema (fixed, mirrored by harness/props/c01.py):                       *)
 (*    T (id: int PK; a, b: Optional int; s: Optional str (nullable);       *)
-(*       flag: bool; ref: Optional T2)                                     *)
+(*       flag: bool; ref: Optional T2; dt: Optional datetime)              *)
 (*    T2(id: int PK; n: Optional int; ts: Set(T))   -- reverse of T.ref    *)
 (*                                                                         *)
 (* A query is a record                                                     *)
@@ -29,10 +29,12 @@
 (*   - results: entities and projections are sets (Pony documents          *)
 (*     automatic DISTINCT), order_by gives a sequence, aggregates ignore   *)
 (*     missing values (sum of nothing = 0, min/max of nothing = None).     *)
-(* One point is left open by the statement and therefore by this module    *)
-(* (cx.coll): whether a missing *element* of a collection makes a failed   *)
-(* membership test UNKNOWN (SQL) or is ignored (Python's `in`); the        *)
-(* harness accepts either answer.                                          *)
+(* Membership `v in coll` (subquery, attribute set): a missing tested value *)
+(* v makes the test UNKNOWN (it is a comparison with a missing value); a   *)
+(* missing *element* of the collection is not a member and is ignored -    *)
+(* Python's `g not in [g1, None]` is simply True, so the answer is         *)
+(* determined (cx.coll = "ignored"; the SQL reading "unknown" only         *)
+(* survives inside the known deviation "notsubq").                         *)
 (*                                                                         *)
 (* cx.dev is a set of names of *known deviations* of Pony (recorded        *)
 (* findings); RefEval with a non-empty cx.dev describes what Pony does     *)
@@ -50,6 +52,7 @@ VErr  == [t |-> "err"]
 VI(n) == [t |-> "int", v |-> n]
 VB(b) == [t |-> "bool", v |-> b]
 VS(s) == [t |-> "str", v |-> s]
+VD(m) == [t |-> "dt", v |-> m]       \* a datetime: minutes since 2020-01-01 00:00
 
 IsNone(x) == x.t = "null"
 SameV(a, b) == a.t = b.t /\ (a.t \in {"null", "err"} \/ a.v = b.v)
@@ -97,7 +100,8 @@ TruncDiv(x, y) == LET ax == IF x < 0 THEN -x ELSE x
 (* children of a node that are expressions over the same environment (used by the generic traversals) *)
 Children(e) ==
     LET tag == e[1] IN
-    CASE tag \in {"attr", "nav", "int", "str", "var", "true", "setattr", "setagg"} -> <<>>
+    CASE tag \in {"attr", "nav", "int", "str", "var", "true", "setattr", "setagg", "param"} -> <<>>
+      [] tag \in {"dtadd", "dtsub", "dtaddp"} -> <<e[2]>>
       [] tag \in {"neg", "abs", "len", "upper", "lower", "not", "truth", "isnone", "notnone"} -> <<e[2]>>
       [] tag \in {"bin", "cmp"} -> <<e[3], e[4]>>
       [] tag \in {"concat", "and", "or", "startswith", "endswith", "contains", "notcontains", "coalesce"} -> <<e[2], e[3]>>
@@ -183,6 +187,11 @@ EvalV(e, env, cx) ==
       [] tag = "int"  -> VI(e[2])
       [] tag = "str"  -> VS(e[2])
       [] tag = "true" -> VB(TRUE)
+      [] tag = "param" -> EvalV(e[2], env, cx)      \* a Python variable of the enclosing scope holding the constant e[2]
+      \* e[2] + timedelta(minutes=e[3]) / e[2] - timedelta(minutes=e[3]) / e[2] + <variable holding timedelta(minutes=e[3])>
+      [] tag \in {"dtadd", "dtsub", "dtaddp"} ->
+            LET x == EvalV(e[2], env, cx) IN
+            IF IsNone(x) THEN VNull ELSE VD(IF tag = "dtsub" THEN x.v - e[3] ELSE x.v + e[3])
       [] tag = "bin"  ->
             LET x == EvalV(e[3], env, cx)
                 y == EvalV(e[4], env, cx)
@@ -209,7 +218,7 @@ EvalV(e, env, cx) ==
                 op == e[2]
             IN IF IsNone(x) \/ IsNone(y) THEN VNull
                ELSE IF x.t # y.t THEN VErr
-               ELSE IF x.t = "int" THEN VB(IntCmp(op, x.v, y.v))
+               ELSE IF x.t \in {"int", "dt"} THEN VB(IntCmp(op, x.v, y.v))
                ELSE IF op = "==" THEN VB(x.v = y.v)
                ELSE IF op = "!=" THEN VB(x.v # y.v)
                ELSE VErr
@@ -218,6 +227,9 @@ EvalV(e, env, cx) ==
       [] tag = "not"  ->
             \* (CPython compiles `not (a in b)` to `a not in b`: under the deviation both spellings behave alike)
             IF "strnotin" \in cx.dev /\ e[2][1] = "contains" THEN EvalV(<<"notcontains", e[2][2], e[2][3]>>, env, cx)
+            \* known deviation "notsubq": `not (v in (subquery))` lacks the IS NOT NULL guard of `v not in (subquery)`,
+            \* so a missing element makes it unknown
+            ELSE IF "notsubq" \in cx.dev /\ e[2][1] = "insub" THEN KNot(EvalV(e[2], env, [cx EXCEPT !.coll = "unknown"]))
             ELSE KNot(EvalV(e[2], env, cx))
       [] tag = "truth" ->
             IF e[2][1] = "setattr" THEN VB(Len(SrcRows(<<"_", e[2][2], e[2][3]>>, env, cx)) > 0)
@@ -337,8 +349,8 @@ RunQuery(q0, cx) ==
                 keys |-> [i \in 1 .. Len(sorted) |-> sorted[i].key]]
 
 Cx(D, coll, dev) == [D |-> D, coll |-> coll, dev |-> dev]
-RefEval(q, D) == RunQuery(q, Cx(D, "unknown", {}))
-RefEvalAlt(q, D) == RunQuery(q, Cx(D, "ignored", {}))
+RefEval(q, D) == RunQuery(q, Cx(D, "ignored", {}))
+RefEvalAlt(q, D) == RunQuery(q, Cx(D, "unknown", {}))     \* the SQL reading; QuerySemLaws: coincides on None-free data
 
 SameResult(r1, r2) ==
     /\ r1.kind = r2.kind
@@ -368,6 +380,10 @@ PyEval(e, env, D) ==
       [] tag = "int"  -> VI(e[2])
       [] tag = "str"  -> VS(e[2])
       [] tag = "true" -> VB(TRUE)
+      [] tag = "param" -> PyEval(e[2], env, D)
+      [] tag \in {"dtadd", "dtsub", "dtaddp"} ->
+            LET x == PyEval(e[2], env, D) IN
+            IF x.t # "dt" THEN VErr ELSE IF tag = "dtsub" THEN VD(x.v - e[3]) ELSE VD(x.v + e[3])
       [] tag = "bin"  -> LET x == PyEval(e[3], env, D)
                              y == PyEval(e[4], env, D)
                          IN IF x.t # "int" \/ y.t # "int" THEN VErr
@@ -387,7 +403,7 @@ PyEval(e, env, D) ==
       [] tag = "cmp"  -> LET x == PyEval(e[3], env, D)
                              y == PyEval(e[4], env, D)
                          IN IF x.t \in {"null", "err"} \/ y.t \in {"null", "err"} \/ x.t # y.t THEN VErr
-                            ELSE IF x.t = "int" THEN VB(IntCmp(e[2], x.v, y.v))
+                            ELSE IF x.t = "int" \/ x.t = "dt" THEN VB(IntCmp(e[2], x.v, y.v))
                             ELSE IF e[2] = "==" THEN VB(x.v = y.v) ELSE IF e[2] = "!=" THEN VB(~(x.v = y.v)) ELSE VErr
       \* x and y: x if x is falsy else y;  x or y: x if x is truthy else y
       [] tag = "and"  -> LET x == PyEval(e[2], env, D) IN IF PyTruthy(x) THEN PyEval(e[3], env, D) ELSE x
@@ -427,12 +443,14 @@ TypeOf(e) ==
     IN
     CASE tag = "attr" -> IF e[3] \in IntAttr \/ (e[3] = "n") THEN "int"
                          ELSE IF e[3] = "s" THEN "str" ELSE IF e[3] = "flag" THEN "bool"
-                         ELSE IF e[3] = "ref" THEN "ent" ELSE "bad"
+                         ELSE IF e[3] = "ref" THEN "ent" ELSE IF e[3] = "dt" THEN "dt" ELSE "bad"
       [] tag = "var" -> "ent"
       [] tag = "nav" -> IF e[3] = "ref" /\ e[4] = "n" THEN "int" ELSE "bad"
       [] tag = "int" -> "int"
       [] tag = "str" -> "str"
       [] tag = "true" -> "bool"
+      [] tag = "param" -> IF e[2][1] \in {"int", "str"} THEN T(2) ELSE "bad"
+      [] tag \in {"dtadd", "dtsub", "dtaddp"} -> IF T(2) = "dt" THEN "dt" ELSE "bad"
       [] tag = "setattr" -> "set"
       [] tag = "bin" -> IF e[2] \in {"+", "-", "*", "//"} /\ T(3) = "int" /\ T(4) = "int" THEN "int" ELSE "bad"
       [] tag \in {"neg", "abs"} -> IF T(2) = "int" THEN "int" ELSE "bad"
@@ -440,24 +458,24 @@ TypeOf(e) ==
       [] tag \in {"upper", "lower"} -> IF T(2) = "str" THEN "str" ELSE "bad"
       [] tag = "concat" -> IF T(2) = "str" /\ T(3) = "str" THEN "str" ELSE "bad"
       [] tag = "coalesce" -> IF T(2) = T(3) /\ T(2) \in {"int", "str"} THEN T(2) ELSE "bad"
-      [] tag = "cmp" -> IF T(3) = T(4) /\ ((T(3) = "int" /\ e[2] \in {"==", "!=", "<", "<=", ">", ">="})
+      [] tag = "cmp" -> IF T(3) = T(4) /\ ((T(3) \in {"int", "dt"} /\ e[2] \in {"==", "!=", "<", "<=", ">", ">="})
                                            \/ (T(3) \in {"str", "bool"} /\ e[2] \in {"==", "!="})) THEN "bool" ELSE "bad"
       [] tag \in {"and", "or"} -> IF T(2) = "bool" /\ T(3) = "bool" THEN "bool" ELSE "bad"
       [] tag = "not" -> IF T(2) = "bool" THEN "bool" ELSE "bad"
       [] tag = "truth" -> IF T(2) \in {"int", "str", "ent", "set"} THEN "bool" ELSE "bad"
-      [] tag \in {"isnone", "notnone"} -> IF T(2) \in {"int", "str", "ent"} THEN "bool" ELSE "bad"
+      [] tag \in {"isnone", "notnone"} -> IF T(2) \in {"int", "str", "ent", "dt"} THEN "bool" ELSE "bad"
       [] tag \in {"startswith", "endswith", "contains", "notcontains"} -> IF T(2) = "str" /\ T(3) = "str" THEN "bool" ELSE "bad"
       [] tag \in {"intuple", "notintuple"} -> IF T(2) \in {"int", "str"} /\ Len(e[3]) > 0 THEN "bool" ELSE "bad"
       [] tag = "ifexp" -> IF T(3) = "bool" /\ T(2) = T(4) /\ T(2) \in {"int", "str"} THEN T(2) ELSE "bad"
       [] tag = "exists" -> IF TypeOf(e[3]) = "bool" THEN "bool" ELSE "bad"
-      [] tag \in {"insub", "notinsub"} -> IF T(2) = TypeOf(e[4]) /\ T(2) \in {"int", "str"} /\ TypeOf(e[5]) = "bool" THEN "bool" ELSE "bad"
+      [] tag \in {"insub", "notinsub"} -> IF T(2) = TypeOf(e[4]) /\ T(2) \in {"int", "str", "ent"} /\ TypeOf(e[5]) = "bool" THEN "bool" ELSE "bad"
       [] tag \in {"insetattr", "notinsetattr"} -> IF T(2) = "int" /\ e[5] \in {"a", "b"} THEN "bool" ELSE "bad"
       [] tag = "setagg" -> IF e[2] \in {"count", "sum", "min", "max"} THEN "int" ELSE "bad"
       [] OTHER -> "bad"
 
 WellTyped(q) ==
     /\ TypeOf(q.cond) = "bool"
-    /\ \A j \in 1 .. Len(q.res) : TypeOf(q.res[j]) \in {"int", "str", "bool", "ent"}
+    /\ \A j \in 1 .. Len(q.res) : TypeOf(q.res[j]) \in {"int", "str", "bool", "ent", "dt"}
     /\ \A j \in 1 .. Len(q.ord) : TypeOf(q.ord[j][1]) = "int" /\ q.ord[j][2] \in {"asc", "desc"}
     /\ q.agg \in {"none", "count", "sum", "min", "max"}
     /\ (q.agg \in {"sum", "min", "max"} => Len(q.res) = 1 /\ TypeOf(q.res[1]) = "int")
@@ -466,25 +484,25 @@ WellTyped(q) ==
 (* the data sets: <= 3 rows of T, 2 rows of T2; D1, D2 contain missing values, D3, D4 are None-free.   *)
 (* 0, negative numbers, the empty string, LIKE wildcards, mixed case and duplicates all occur.         *)
 Str(s) == VS(s)
-RowT(id, a, b, s, flag, ref) == [id |-> VI(id), a |-> a, b |-> b, s |-> s, flag |-> VB(flag), ref |-> ref]
+RowT(id, a, b, s, flag, ref, dt) == [id |-> VI(id), a |-> a, b |-> b, s |-> s, flag |-> VB(flag), ref |-> ref, dt |-> dt]
 RowU(id, n) == [id |-> VI(id), n |-> n]
 
 DataSets == <<
-  [T  |-> << RowT(1, VNull,  VI(1),  VNull,                 TRUE,  VI(1)),
-             RowT(2, VI(0),  VNull,  Str(<<>>),             FALSE, VNull),
-             RowT(3, VI(-1), VI(2),  Str(<<"a", "%">>),     TRUE,  VI(1)) >>,
+  [T  |-> << RowT(1, VNull,  VI(1),  VNull,                 TRUE,  VI(1), VD(90)),
+             RowT(2, VI(0),  VNull,  Str(<<>>),             FALSE, VNull, VNull),
+             RowT(3, VI(-1), VI(2),  Str(<<"a", "%">>),     TRUE,  VI(1), VD(1440)) >>,
    T2 |-> << RowU(1, VI(1)), RowU(2, VNull) >>],
-  [T  |-> << RowT(1, VI(1),  VI(1),  Str(<<"a", "b">>),     FALSE, VI(2)),
-             RowT(2, VI(1),  VI(-2), Str(<<"a", "b">>),     TRUE,  VI(2)),
-             RowT(3, VNull,  VI(0),  Str(<<"A", "_">>),     TRUE,  VNull) >>,
+  [T  |-> << RowT(1, VI(1),  VI(1),  Str(<<"a", "b">>),     FALSE, VI(2), VD(0)),
+             RowT(2, VI(1),  VI(-2), Str(<<"a", "b">>),     TRUE,  VI(2), VD(0)),
+             RowT(3, VNull,  VI(0),  Str(<<"A", "_">>),     TRUE,  VNull, VNull) >>,
    T2 |-> << RowU(1, VI(0)), RowU(2, VI(2)) >>],
-  [T  |-> << RowT(1, VI(0),  VI(1),  Str(<<>>),             TRUE,  VI(1)),
-             RowT(2, VI(-1), VI(-1), Str(<<"a">>),          FALSE, VI(1)),
-             RowT(3, VI(2),  VI(1),  Str(<<"a", "%", "b">>), TRUE, VI(2)) >>,
+  [T  |-> << RowT(1, VI(0),  VI(1),  Str(<<>>),             TRUE,  VI(1), VD(30)),
+             RowT(2, VI(-1), VI(-1), Str(<<"a", "!">>),     FALSE, VI(1), VD(-75)),
+             RowT(3, VI(2),  VI(1),  Str(<<"a", "%", "b">>), TRUE, VI(2), VD(2000)) >>,
    T2 |-> << RowU(1, VI(1)), RowU(2, VI(-1)) >>],
-  [T  |-> << RowT(1, VI(1),  VI(0),  Str(<<"A", "b">>),     FALSE, VI(1)),
-             RowT(2, VI(1),  VI(2),  Str(<<"_", "b">>),     TRUE,  VI(1)),
-             RowT(3, VI(-2), VI(2),  Str(<<"a", "b">>),     TRUE,  VI(1)) >>,
+  [T  |-> << RowT(1, VI(1),  VI(0),  Str(<<"A", "b">>),     FALSE, VI(1), VD(45)),
+             RowT(2, VI(1),  VI(2),  Str(<<"_", "b">>),     TRUE,  VI(1), VD(45)),
+             RowT(3, VI(-2), VI(2),  Str(<<"a", "b">>),     TRUE,  VI(1), VD(1395)) >>,
    T2 |-> << RowU(1, VI(2)), RowU(2, VI(0)) >>]
 >>
 NoneFree == {3, 4}
@@ -525,7 +543,14 @@ NoneTest1 == {<<f, x>> : f \in {"isnone", "notnone"}, x \in {XA, XB, XS}}
 InTuple1 == {<<f, XA, <<0, 1>>>> : f \in {"intuple", "notintuple"}}
             \cup {<<f, XS, << <<>>, <<"a", "b">> >> >> : f \in {"intuple", "notintuple"}}
 Truth1 == {<<"truth", XA>>, <<"truth", XS>>, XF}
-Bool1 == Cmp1 \cup StrCmp1 \cup StrPred1 \cup NoneTest1 \cup InTuple1 \cup Truth1
+(* Python variables of the enclosing scope (bound parameters) and the LIKE escape character *)
+P(c) == <<"param", c>>
+ParamPreds == {<<f, XS, P(c)>> : f \in {"startswith", "endswith"}, c \in {C(<<"a", "!">>), C(<<"!">>), C(<<"%">>)}}
+              \cup {<<f, P(c), XS>> : f \in {"contains", "notcontains"}, c \in {C(<<"a", "!">>), C(<<"!">>), C(<<"_">>)}}
+              \cup {<<"contains", XS, P(C(<<"a", "!", "b">>))>>, <<"contains", XS, C(<<"a", "!", "b">>)>>,
+                    <<"endswith", <<"coalesce", XS, C(<<"a", "!">>)>>, XS>>, <<"endswith", XS, C(<<"!">>)>>}
+              \cup {<<"cmp", op, XA, P(N(1))>> : op \in {"==", "<"}} \cup {<<"cmp", "==", XS, P(C(<<"a", "!">>))>>}
+Bool1 == Cmp1 \cup StrCmp1 \cup StrPred1 \cup NoneTest1 \cup InTuple1 \cup Truth1 \cup ParamPreds
 
 (* a few representative conditions used as second operands / inner conditions *)
 BoolSmall == {XF, <<"cmp", ">", XB, N(0)>>, <<"truth", XS>>, <<"isnone", XB>>, <<"truth", XA>>}
@@ -577,6 +602,20 @@ Sub1 == {<<"exists", LoopY, c>> : c \in ExistsConds}
                                       p \in {YA, YB, <<"bin", "*", YA, N(-2)>>}, c \in InnerConds}
         \cup {<<f, XS, LoopY, p, c>> : f \in {"insub", "notinsub"}, p \in {YS, <<"upper", YS>>}, c \in {TT, YF}}
 Sub2 == {<<"not", b>> : b \in Sub1} \cup {<<f, XF, b>> : f \in {"and", "or"}, b \in Sub1}
+
+(* membership of an entity in a subquery that projects an optional reference: y [not] in (x.ref for x in T if c) *)
+EntSub == {<<f, <<"var", "y">>, LoopX, <<"attr", "x", "ref">>, c>> : f \in {"insub", "notinsub"},
+                                                              c \in {TT, XF, <<"cmp", ">", XB, N(0)>>, <<"isnone", XA>>, <<"notnone", XS>>}}
+EntSubConds == EntSub \cup {<<"not", b>> : b \in EntSub} \cup {<<"and", b, <<"notnone", <<"attr", "y", "n">>>>>> : b \in EntSub}
+
+(* datetime +- a constant timedelta (positive, negative, more than a day) and + a timedelta held by a variable *)
+XD == <<"attr", "x", "dt">>
+DtExprs == {<<f, XD, m>> : f \in {"dtadd", "dtsub"}, m \in {45, 180, 1440, 1560, 2925}}
+           \cup {<<"dtaddp", XD, m>> : m \in {-180, -45, 90, -1560}}
+DtQueries == {Sel(LoopX, <<XID, e>>, c, <<>>, "none") : e \in DtExprs \cup {XD}, c \in {TT, XF}}
+             \cup {Sel(LoopX, <<VX>>, <<"cmp", op, e, XD>>, <<>>, "none") : op \in {"<", ">", "!="}, e \in DtExprs}
+             \cup {Sel(LoopX, <<VX>>, c, <<>>, "none") : c \in {<<"isnone", XD>>, <<"notnone", XD>>,
+                                                              <<"cmp", "<", <<"dtsub", XD, 180>>, <<"dtadd", XD, 45>>>>}}
 
 (* navigation x.ref.n and the reference itself *)
 XRN == <<"nav", "x", "ref", "n">>
@@ -638,7 +677,8 @@ Queries(d) ==
     \cup (IF d >= 2 THEN {Filter(c) : c \in Bool2Only} \cup {Filter(c) : c \in Sub2} ELSE {})
     \cup {Filter(c) : c \in Sub1}
     \cup {Filter(c) : c \in NavConds}
-    \cup {Sel(LoopU, <<VY>>, c, <<>>, "none") : c \in SetConds}
+    \cup {Sel(LoopU, <<VY>>, c, <<>>, "none") : c \in SetConds \cup EntSubConds}
+    \cup DtQueries
     \cup TwoLoop \cup Ordered \cup Aggregates
 
 (* integer floor division is kept apart: Pony renders it as SQL "/" (recorded finding) *)
@@ -646,7 +686,7 @@ DivQueries == {Filter(<<"cmp", op, e, r>>) : op \in {"==", "<"}, e \in FloorDiv2
               \cup {Proj(<<e>>, TT) : e \in FloorDiv2}
 
 (* expression sets over which QuerySemLaws compares RefEval with PyEval *)
-LawConds == Bool1 \cup Bool2Only \cup NavConds
-LawExprs == Int1 \cup Str1 \cup IfExp2 \cup StrIfExp2 \cup FloorDiv2
+LawConds == Bool1 \cup Bool2Only \cup NavConds \cup {<<"cmp", op, e, XD>> : op \in CmpOps, e \in DtExprs}
+LawExprs == Int1 \cup Str1 \cup IfExp2 \cup StrIfExp2 \cup FloorDiv2 \cup DtExprs
 
 =============================================================================
